@@ -87,13 +87,64 @@ def colsels(c):
     return [['slice', 1, 3, None], ['slice', None, None, -1], ['list', [c - 1, 0] if c >= 2 else [0]]]
 
 
+# The ARGUMENT FORM of a channel selection (stage 6, seeded change C02-m12).  Besides a slice and a list /
+# int64 ndarray of channel ids (the `as` configuration), NumPy accepts for A[:, X]:
+#   ['mask', bits, container]   a BOOLEAN MASK over the channels (container: 'array' = ndarray of bool, 'list' /
+#                               'tuple' of Python bools); selects the channels whose bit is set, in order
+#   ['ids', ids, container]     the channel ids in another container: 'tuple', or an ndarray of the integer dtype
+#                               named (int8 ... uint64, intp)
+#   ['range', a, b, step]       a Python range object
+#   ['ellipsis']                reader[:, ...] = every channel
+# The abstract selection (what the Coq model sees) is the index list / the full slice these denote in NumPy.
+IDCONTS = ['tuple', 'int8', 'uint8', 'int16', 'uint16', 'int32', 'uint32', 'uint64', 'intp']
+IDRANGE = {'int8': (-128, 127), 'uint8': (0, 255), 'int16': (-2 ** 15, 2 ** 15 - 1), 'uint16': (0, 2 ** 16 - 1),
+           'int32': (-2 ** 31, 2 ** 31 - 1), 'uint32': (0, 2 ** 32 - 1), 'uint64': (0, 2 ** 64 - 1),
+           'intp': (-2 ** 63, 2 ** 63 - 1), 'tuple': (-2 ** 63, 2 ** 63 - 1)}
+MASKCONTS = ['array', 'list', 'tuple']
+
+
+def col_ids(cols):
+    """the abstract selection of a non-slice selector: the channel ids it denotes, in order"""
+    if cols[0] == 'mask':
+        return [j for j, b in enumerate(cols[1]) if b]
+    if cols[0] == 'range':
+        return list(range(cols[1], cols[2], cols[3]))
+    return list(cols[1])
+
+
+def valid_cols(cols):
+    k = cols[0]
+    if k == 'slice':
+        return len(cols) == 4
+    if k == 'list':
+        return len(cols) == 2
+    if k == 'mask':
+        return len(cols) == 3 and cols[2] in MASKCONTS and len(cols[1]) >= 1 and all(b in (0, 1) for b in cols[1])
+    if k == 'ids':
+        if len(cols) != 3 or cols[2] not in IDCONTS:
+            return False
+        lo, hi = IDRANGE[cols[2]]
+        return all(lo <= x <= hi for x in cols[1])
+    if k == 'range':
+        return len(cols) == 4 and cols[3] != 0
+    return cols == ['ellipsis']
+
+
+def colforms(c):
+    """the fixed representatives of the other argument forms (one-step derivations of every fan)"""
+    m = [1 if j in (0, c - 1) else 0 for j in range(c)]
+    return [['mask', m, 'array'], ['mask', [1 - b for b in m] if c >= 3 else m, 'list'],
+            ['ids', [c - 1, 0] if c >= 2 else [0], 'tuple'], ['ids', [0, c - 1], 'uint8']]
+
+
 def level_ops(c):
-    """the 89 one-step derivations"""
+    """the 93 one-step derivations (2 unary + 12 binary x 7 scalars + 3 column selectors + 4 further argument
+    forms of a column selector: boolean mask as ndarray / as list, ids as tuple / as uint8 ndarray)"""
     out = [[u] for u in UNARY]
     for b in BINARY:
         for s in SCALARS:
             out.append([b, s])
-    for cs in colsels(c):
+    for cs in colsels(c) + colforms(c):
         out.append(['cols', cs])
     return out
 
@@ -162,6 +213,9 @@ def valid_case(case):
         return False
     nread = 1
     for cm in i['cmds']:
+        sel = cm[2][1] if cm[0] == 'd' and cm[2][0] == 'cols' else cm[3] if cm[0] == 'r' and cm[3] not in (None, TUPLE1) else None
+        if sel is not None and not valid_cols(sel):
+            return False
         if cm[0] == 'd':
             if not 0 <= cm[1] < nread:
                 return False
@@ -202,6 +256,7 @@ def fan(prefix, sizes, c, k, **cfg):
     if cfg.get('backend') == 'cbin':
         its = [it for it in its if it[0] != 'list']
     cs = colsels(c)
+    cf = colforms(c) + [['range', c - 1, -1, -2], ['ellipsis'], ['mask', [1] * c, 'tuple'], ['ids', [-1, 0], 'int8']]
     cmds = []
     p = 0
     for o in prefix:
@@ -212,7 +267,7 @@ def fan(prefix, sizes, c, k, **cfg):
     nxt = p + 1
     for j, o in enumerate(level_ops(c)):
         cmds.append(['d', p, o])
-        cols = cs[(j + k) % 3] if (j + k) % 3 == 0 else None
+        cols = cs[(j + k) % 3] if (j + k) % 3 == 0 else cf[(j + k) % len(cf)] if (j + k) % 7 == 1 else None
         cmds.append(['r', nxt, its[(j + k) % len(its)], cols])
         nxt += 1
     cmds.append(['r', p, its[k % len(its)], None])
@@ -243,13 +298,36 @@ def _rand_op(rng, c):
         r2 = rng.random()
         if r2 < 0.5:
             return ['cols', rng.choice(colsels(c))]
-        if r2 < 0.75:
+        if r2 < 0.7:
             a = rng.choice([None, 0, 1, -2, -c])
             b = rng.choice([None, c, c - 1, -1, 2])
             return ['cols', ['slice', a, b, rng.choice([None, 1, -1, 2])]]
-        k = rng.randint(1, c + 1)
-        return ['cols', ['list', [rng.randint(-c, c - 1) for _ in range(k)]]]
+        if r2 < 0.87:
+            k = rng.randint(1, c + 1)
+            return ['cols', ['list', [rng.randint(-c, c - 1) for _ in range(k)]]]
+        return ['cols', _rand_colform(rng, c)]
     return [rng.choice(BINARY), _rand_scalar(rng)]
+
+
+def _rand_colform(rng, c):
+    """a channel selection in one of the other argument forms: any mask over c channels (now and then of another
+    length: after an earlier selection that is the right one, otherwise NumPy refuses it and the program is dropped),
+    in any container; any id list in any container that can hold it; a range; the ellipsis"""
+    r = rng.random()
+    if r < 0.5:
+        n = c if rng.random() < 0.8 else rng.randint(1, c + 1)
+        bits = [rng.randint(0, 1) for _ in range(n)]
+        if rng.random() < 0.15:
+            bits = [rng.choice([0, 1])] * n
+        return ['mask', bits, rng.choice(MASKCONTS)]
+    if r < 0.85:
+        cont = rng.choice(IDCONTS)
+        lo = 0 if IDRANGE[cont][0] == 0 else -c
+        return ['ids', [rng.randint(lo, c - 1) for _ in range(rng.randint(0 if cont != 'tuple' else 1, c + 1))], cont]
+    if r < 0.95:
+        a, b = rng.randint(-c, c - 1), rng.randint(-c - 1, c)
+        return ['range', a, b, 1 if a <= b else -1] if rng.random() < 0.6 else ['range', a, b, rng.choice([2, -2, 3, -1, 1])]
+    return ['ellipsis']
 
 
 def empty_items(sizes, steps=(None,)):
@@ -433,7 +511,24 @@ ADD2, MUL3, NEG, RSUB1 = ['add', ['i', 2]], ['mul', ['i', 3]], ['neg'], ['rsub',
 HALF = ['truediv', ['f', (0.5).hex()]]
 REV, C20 = ['cols', S(None, None, -1)], ['cols', ['list', [2, 0]]]
 R13 = S(1, 3, None)
+MASK = lambda bits, cont='array': ['mask', list(bits), cont]  # noqa
 CORPUS = [
+    # channel selection by a BOOLEAN MASK (seeded change C02-m12: the selector coerced to int64 ids, mask [1,0,1,0] ->
+    # channels [1,0,1,0]): as ndarray / list / tuple of bools, whole-recording then arithmetic, arithmetic then mask,
+    # as the selector of a read, all-False and all-True masks, a mask after an earlier selection (length = its width)
+    mk('prog', [5], 4, [['d', 0, ['cols', MASK([1, 0, 1, 0])]], ['r', 1, R13, None], ['d', 1, ['mul', ['i', 2]]], ['r', 2, ['int', -1], None],
+                        ['d', 0, ['add', ['i', 1]]], ['d', 3, ['cols', MASK([0, 1, 1, 1], 'list')]], ['d', 4, ['truediv', ['f', (2.0).hex()]]],
+                        ['r', 5, S(1, 4, None), None], ['r', 0, R13, MASK([0, 0, 0, 1], 'tuple')], ['r', 3, ['list', [0, 4]], MASK([1, 1, 0, 0])],
+                        ['d', 1, ['cols', MASK([0, 1], 'list')]], ['r', 6, R13, None], ['r', 0, R13, MASK([0, 0, 0, 0])],
+                        ['r', 0, S(None, None, None), MASK([1, 1, 1, 1], 'list')], ['r', 0, R13, None]]),
+    mk('prog', [2, 3], 3, [['d', 0, ['neg']], ['r', 1, S(1, 4, None), MASK([0, 1, 1])], ['d', 1, ['cols', MASK([1, 0, 1], 'tuple')]],
+                           ['r', 2, ['list', [1, 2]], None], ['r', 2, S(3, 3, None), None], ['r', 1, R13, None]], backend='flat', **{'as': 'array'}),
+    # channel ids in the other containers NumPy accepts: tuple, ndarrays of every integer dtype, range, ellipsis
+    mk('prog', [5], 4, [['d', 0, ['cols', ['ids', [3, 0], 'tuple']]], ['d', 0, ['cols', ['ids', [2, 2, 1], 'uint8']]], ['d', 0, ['cols', ['ids', [-1, 0], 'int8']]],
+                        ['d', 0, ['cols', ['ids', [1, 3], 'uint64']]], ['d', 0, ['cols', ['range', 3, 0, -2]]], ['d', 0, ['cols', ['ellipsis']]],
+                        ['d', 0, ['cols', ['ids', [], 'int32']]],
+                        ['r', 1, R13, None], ['r', 2, R13, None], ['r', 3, R13, None], ['r', 4, R13, None], ['r', 5, R13, None], ['r', 6, R13, None],
+                        ['r', 7, R13, None], ['r', 0, R13, ['ids', [0, 3], 'uint16']], ['r', 0, ['int', 2], ['range', 0, 4, 3]], ['r', 0, R13, ['ellipsis']]]),
     # parent re-read after deriving a child: a shared ops list would give the parent the child's op
     mk('tree', [2, 3], 3, [['r', 0, R13, None], ['d', 0, ADD2], ['r', 0, R13, None], ['r', 1, R13, None]], backend='flat'),
     # siblings: the second child must not see the first child's op, nor the other way round
@@ -503,6 +598,20 @@ def colsel_cases():
     out = []
     for j, sel in enumerate(sels):
         cs = ['list', sel]
+        cmds = [['d', 0, ['cols', cs]], ['d', 1, ADD2], ['r', 2, R13, None], ['r', 0, R13, cs], ['r', 1, ['int', -1], None]]
+        out.append(mk('prog', [5] if j % 2 else [2, 3], c, cmds, backend='array' if j % 2 else 'flat'))
+    # EVERY boolean mask over the 4 channels, in every container (ndarray of bool, list, tuple of Python bools), and the
+    # index lists above in the other id containers (tuple, ndarrays of the integer dtypes), rotating
+    j = 0
+    for bits in itertools.product((0, 1), repeat=c):
+        for cont in MASKCONTS:
+            cs = ['mask', list(bits), cont]
+            cmds = [['d', 0, ['cols', cs]], ['d', 1, ADD2], ['r', 2, R13, None], ['d', 0, MUL3], ['r', 3, R13, cs], ['r', 1, ['int', -1], None],
+                    ['r', 0, R13, None]]
+            out.append(mk('prog', [5] if j % 2 else [2, 3], c, cmds, backend='array' if j % 2 else 'flat'))
+            j += 1
+    for j, sel in enumerate(sels[::3]):
+        cs = ['ids', sel, IDCONTS[j % len(IDCONTS)]]
         cmds = [['d', 0, ['cols', cs]], ['d', 1, ADD2], ['r', 2, R13, None], ['r', 0, R13, cs], ['r', 1, ['int', -1], None]]
         out.append(mk('prog', [5] if j % 2 else [2, 3], c, cmds, backend='array' if j % 2 else 'flat'))
     return out
@@ -612,10 +721,31 @@ def py_item(it, form):
 
 
 def py_cols(cols, form):
+    """the Python object of a column selector.  form 'list' / 'array': what the READER is indexed with (a 'list'
+    selector as list / int64 ndarray; the other kinds in their own container).  form 'np': what the loaded ARRAY is
+    indexed with, the oracle -- the canonical NumPy form of the same selection (slice, list of ids, ndarray of bool),
+    so that the expected value does not depend on the container at all."""
     import numpy as np
-    if cols[0] == 'slice':
+    k = cols[0]
+    if k == 'slice':
         return slice(cols[1], cols[2], cols[3])
-    return np.array(cols[1], dtype=np.int64) if form == 'array' else list(cols[1])
+    if k == 'list':
+        return np.array(cols[1], dtype=np.int64) if form == 'array' else list(cols[1])
+    if k == 'mask':
+        bits = [bool(b) for b in cols[1]]
+        if form == 'np' or cols[2] == 'array':
+            return np.array(bits, dtype=bool)
+        return bits if cols[2] == 'list' else tuple(bits)
+    if k == 'ids':
+        if form == 'np':
+            return [int(x) for x in cols[1]] if cols[1] else np.zeros(0, dtype=np.int64)
+        return tuple(cols[1]) if cols[2] == 'tuple' else np.array(cols[1], dtype=cols[2])
+    if k == 'range':
+        r = range(cols[1], cols[2], cols[3])
+        return r if form != 'np' else (list(r) if len(r) else np.zeros(0, dtype=np.int64))
+    if k == 'ellipsis':
+        return Ellipsis if form != 'np' else slice(None, None, None)
+    raise ValueError(k)
 
 
 def apply_py(x, o, form):
@@ -711,7 +841,7 @@ def run_case(case):
                     p = eff[cm[1]]
                     o = cm[2]
                     try:
-                        X = apply_py(eager[p], o, 'list')
+                        X = apply_py(eager[p], o, 'np')
                         if not isinstance(X, np.ndarray) or X.ndim != 2 or _dtcode(X.dtype) == 99:
                             raise TypeError('eager result is not a 2-D numeric array')
                     except Exception:
@@ -756,14 +886,14 @@ def run_case(case):
                         try:
                             E = np.atleast_2d(eager[r][(py_item(it, 'list'),) if t1 else py_item(it, 'list')])
                             if cols is not None:
-                                E = E[:, py_cols(cols, 'list')]
+                                E = E[:, py_cols(cols, 'np')]
                             exp = _block(E)
                             # NumPy alone, on the block the reader loads: is NumPy row-count independent here?
                             B = np.ascontiguousarray(np.atleast_2d(A[py_item(it, 'list')]))
                             for o in path[r]:
-                                B = apply_py(B, o, 'list')
+                                B = apply_py(B, o, 'np')
                             if cols is not None:
-                                B = B[:, py_cols(cols, 'list')]
+                                B = B[:, py_cols(cols, 'np')]
                             ok = _same(exp, _block(B))
                         except Exception:
                             stats['dropped_raise'] += 1
@@ -812,9 +942,13 @@ def _item(it):
 
 
 def _colsel(cols):
+    """the ABSTRACT selection: a slice, or the list of channel ids the selector denotes in NumPy (a boolean mask =
+    the positions of its set bits, in order; a tuple / integer ndarray / range = its elements; ... = the full slice)"""
     if cols[0] == 'slice':
         return q.app('CSlice', q.opt(cols[1]), q.opt(cols[2]), q.opt(cols[3]))
-    return q.app('CList', q.zl(cols[1]))
+    if cols[0] == 'ellipsis':
+        return q.app('CSlice', q.opt(None), q.opt(None), q.opt(None))
+    return q.app('CList', q.zl(col_ids(cols)))
 
 
 def _scalar(s):
@@ -902,6 +1036,15 @@ def _bucket(n):
     return str(n) if n <= 3 else '4-9' if n <= 9 else '10-99' if n <= 99 else '100+'
 
 
+def _colform(cols, cfg):
+    k = cols[0]
+    if k == 'list':
+        return 'ids.' + ('int64' if cfg['as'] == 'array' else 'list')
+    if k in ('mask', 'ids'):
+        return '%s.%s' % (k, cols[2])
+    return k
+
+
 def dist(case, obs):
     i = case['inp']
     cfg = i['cfg']
@@ -925,13 +1068,15 @@ def dist(case, obs):
         if cm[0] == 'd':
             depth[k] = depth[cm[1]] + 1
             out.append('op=' + cm[2][0])
+            if cm[2][0] == 'cols':
+                out.append('derive.cols=' + _colform(cm[2][1], cfg))
             if len(cm[2]) > 1 and cm[2][0] != 'cols':
                 out.append('scalar=' + ('int' if cm[2][1][0] == 'i' else 'float'))
             k += 1
         else:
             out.append('read.depth=%d' % min(depth[cm[1]], 4))
             out.append('read.item=' + (cm[2][0] if cm[2][0] != 'list' else cfg['as']))
-            out.append('read.cols=' + ('none' if cm[3] is None else cm[3][0]))
+            out.append('read.cols=' + ('none' if cm[3] is None else _colform(cm[3], cfg)))
             if empty_item(i['sizes'], cm[2]):
                 out.append('read.empty_rows')
                 out.append('read.empty_rows.depth=%d' % min(depth[cm[1]], 4))
@@ -1010,6 +1155,12 @@ def shrink(case):
                 cands.append(mkc(cmds=cmds[:k] + [['r', cm[1], cm[2], None]] + cmds[k + 1:]))
             if cm[2][0] != 'int' and not (cm[3] is not None and cm[2] == ['slice', None, None, None]):
                 cands.append(mkc(cmds=cmds[:k] + [['r', cm[1], ['int', 0], cm[3]]] + cmds[k + 1:]))
+    # a selector in another argument form -> the plain list of the same ids (kept only if the failure stays)
+    for k, cm in enumerate(cmds):
+        if cm[0] == 'd' and cm[2][0] == 'cols' and cm[2][1][0] in ('mask', 'ids', 'range'):
+            cands.append(mkc(cmds=cmds[:k] + [['d', cm[1], ['cols', ['list', col_ids(cm[2][1])]]]] + cmds[k + 1:]))
+        if cm[0] == 'r' and cm[3] not in (None, TUPLE1) and cm[3][0] in ('mask', 'ids', 'range'):
+            cands.append(mkc(cmds=cmds[:k] + [['r', cm[1], cm[2], ['list', col_ids(cm[3])]]] + cmds[k + 1:]))
     seen = set()
     sz = size(case)
     for c in cands:
@@ -1023,6 +1174,15 @@ def shrink(case):
             ok = False
         if ok and size(c) < sz:
             yield c
+
+
+def _cols_text(cols):
+    k = cols[0]
+    if k == 'mask' and cols[2] == 'array':
+        return 'np.array(%r)' % ([bool(b) for b in cols[1]],)
+    if k == 'ids' and cols[2] != 'tuple':
+        return 'np.array(%r, dtype=np.%s)' % (list(cols[1]), cols[2])
+    return repr(py_cols(cols, 'list'))
 
 
 def expr_text(cmds, r):
@@ -1042,7 +1202,7 @@ def expr_text(cmds, r):
         if o[0] == 'neg':
             return '(-%s)' % e
         if o[0] == 'cols':
-            return '%s[:, %r]' % (e, py_cols(o[1], 'list'))
+            return '%s[:, %s]' % (e, _cols_text(o[1]))
         s = repr(py_scalar(o[1]))
         sym = {'add': '+', 'sub': '-', 'mul': '*', 'truediv': '/', 'floordiv': '//', 'pow': '**'}
         if o[0].startswith('r') and o[0][1:] in sym:
@@ -1062,7 +1222,7 @@ def repro(case):
         else:
             lines.append('# read reader %d = %s  [%r%s]' % (cm[1], expr_text(cmds, cm[1]), py_item(cm[2], 'list'),
                                                            '' if cm[3] is None else ',' if cm[3] == TUPLE1
-                                                           else ', %r' % (py_cols(cm[3], 'list'),)))
+                                                           else ', ' + _cols_text(cm[3])))
     return ("import sys, os; sys.path[:0] = ['/verif/harness', os.environ.get('PHYLIB_REPO', '/repo')]\n"
             "from vt import npshim; npshim.setup_process()\n"
             "from vt.props import c02\n"
